@@ -1,9 +1,81 @@
-(* C19 — The self-organising population keeps a well-formed map. *)
+(* C19 — The self-organising population keeps a well-formed map.
+   All statements are about the executable model Model/Gsom.v (lattice part of rosomaxa's GSOM network, node storages, Rosomaxa
+   phase machine); float-decided choices (best matching units, threshold decisions, re-training order) are universally
+   quantified oracle arguments.  Finiteness of weights and error measures is NOT claimed here (floats are not modelled); it is
+   monitored on the implementation by the check (exploration level). *)
 From VRP Require Import Base.Tac Model.Gsom Proofs.GsomP.
 
+(* after Network::new and after every later store_batch / smooth / compact, for every input stream, configuration and oracle:
+   unique keys, key = node.coordinate, weights of the input dimension, capacity node_size, storage within capacity, >= 4 nodes *)
+Theorem C19_wellformed_after_every_operation :
+  forall cfg data assign rounds n ops n',
+    network_new cfg data assign rounds = Created n -> run n ops = Ok n' ->
+    (NoDup (map fst (nodes n')) /\
+     forall c nd, In (c, nd) (nodes n') ->
+       n_c nd = c /\ n_dim nd = dim n' /\ n_cap nd = fcap n' /\ (length (n_st nd) <= n_cap nd)%nat) /\
+    (4 <= size n')%nat /\ fcap n' = node_size cfg /\ dim n' = length (it_w (hd (mkI 0 0 0 []) data)).
+Proof. exact wf_history. Qed.
+
+(* the invariant is inductive: any single operation on any well-formed network *)
+Theorem C19_step_preserves_wellformed :
+  forall n o n', wellformed n -> step n o = Ok n' -> wellformed n' /\ dim n' = dim n /\ fcap n' = fcap n.
+Proof. exact wf_step. Qed.
+
+(* lookup by coordinate finds exactly the node filed under it, and that node carries this coordinate; absent keys are not found *)
+Theorem C19_lookup_exact :
+  forall n c nd, wellformed n ->
+    (lookup c (nodes n) = Some nd <-> In (c, nd) (nodes n)) /\ (lookup c (nodes n) = Some nd -> n_c nd = c).
+Proof. exact wf_lookup. Qed.
+Theorem C19_lookup_absent : forall n c, lookup c (nodes n) = None <-> ~ In c (map fst (nodes n)).
+Proof. exact wf_lookup_absent. Qed.
+
+(* a node storage (Elitism with max = capacity) never exceeds its capacity *)
 Theorem C19_storage_within_capacity : forall cap l x, (length (st_add cap l x) <= cap)%nat.
 Proof. exact st_add_cap. Qed.
 
-Theorem C19_remap_axis_injective : forall d mn mx x y, d = 3 \/ d = 4 -> Z.rem x d <> 0 -> Z.rem y d <> 0 ->
-  shift x mn mx d = shift y mn mx d -> x = y.
+(* growth never loses a node; smoothing never changes the lattice *)
+Theorem C19_store_keeps_nodes :
+  forall n data n', wellformed n -> store_batch n data = Ok n' ->
+    (forall c, In c (map fst (nodes n)) -> In c (map fst (nodes n'))) /\ (size n <= size n')%nat.
+Proof. exact wf_store. Qed.
+Theorem C19_smooth_keeps_lattice :
+  forall n rounds n', wellformed n -> smooth n rounds = Ok n' -> map fst (nodes n') = map fst (nodes n).
+Proof. exact wf_smooth. Qed.
+
+(* contraction: the coordinate shift with Rust's truncating division is injective on kept coordinates (per axis and on the map) *)
+Theorem C19_remap_axis_injective :
+  forall d mn mx x y, d = 3 \/ d = 4 -> Z.rem x d <> 0 -> Z.rem y d <> 0 -> shift x mn mx d = shift y mn mx d -> x = y.
 Proof. exact shift_inj. Qed.
+Theorem C19_remap_injective_on_kept :
+  forall n a b, compact_keeps n a = true -> compact_keeps n b = true -> compact_map n a = compact_map n b -> a = b.
+Proof. exact wf_compact_injective. Qed.
+
+(* compaction never grows the map, never leaves fewer than four nodes (or leaves the network untouched), removes exactly the
+   decimated coordinates and keeps every other node under its shifted coordinate *)
+Theorem C19_compact_bounds :
+  forall n os n', wellformed n -> compact n os = Ok n' ->
+    wellformed n' /\ (size n' <= size n)%nat /\ ((4 <= size n')%nat \/ n' = n) /\
+    (n' = n \/
+     ((size n' + length (filter (fun c => negb (compact_keeps n c)) (map fst (nodes n))) = size n)%nat /\
+      (forall c', In c' (map fst (nodes n')) <->
+                  exists c, In c (map fst (nodes n)) /\ compact_keeps n c = true /\ c' = compact_map n c))).
+Proof. exact wf_compact. Qed.
+
+(* the population moves through its phases only forward and its elite never exceeds elite_size (for every dedup function) *)
+Theorem C19_phases_forward_elite_bounded :
+  forall dd c ops1 ops2 s1 s2,
+    rrun dd (ro_new c) ops1 = Ok s1 -> rrun dd (ro_new c) (ops1 ++ ops2) = Ok s2 ->
+    (phase_rank (ro_phase s1) <= phase_rank (ro_phase s2))%nat /\
+    (length (ro_elite s1) <= r_elite c)%nat /\ (length (ro_elite s2) <= r_elite c)%nat.
+Proof. exact ro_history. Qed.
+
+(* non-vacuity: a concrete creation + growth history, a concrete compaction that really shrinks, a history through all phases *)
+Theorem C19_nonvacuous_history : exists n n',
+  network_new (mkCfg 2) w_data w_round (repeat w_round 8) = Created n /\
+  run n [OStore [(mkI 9 0 9 [5; 5], (0, 0), true)]; OCompact []] = Ok n' /\ size n = 4%nat /\ size n' = 6%nat.
+Proof. exact history_witness. Qed.
+Theorem C19_nonvacuous_compact : exists n n', wellformed n /\ compact n [] = Ok n' /\ (size n' < size n)%nat /\ size n' = 16%nat.
+Proof. exact compact_witness. Qed.
+Theorem C19_nonvacuous_phases :
+  exists s, rrun dedupf (ro_new (mkR 4 2 900)) [RAdd w_data; RGen 10 900; RGen 950 900] = Ok s /\ ro_phase s = PExploitation.
+Proof. exact phase_witness. Qed.
